@@ -11,10 +11,11 @@ EXTENDS AsyncIOSched, TLCExt
 
 CONSTANTS Variants,        \* the variants explored
           Family(_),       \* variant -> set of scenarios [Items -> item scenario]
-          OwnSets(_, _)    \* variant, scenario -> the sets of foreign threads that run an event loop of their own
+          OwnSets(_, _),   \* variant, scenario -> the sets of foreign threads that run an event loop of their own
+          BusySets(_, _)   \* variant, scenario -> how long the loop's first callback sleeps (0 = the loop is not kept busy)
 
 Init == /\ MonInit
-        /\ \E v \in Variants : \E s \in Family(v) : \E o \in OwnSets(v, s) : MechInitFor(v, s, o)
+        /\ \E v \in Variants : \E s \in Family(v) : \E o \in OwnSets(v, s) : \E b \in BusySets(v, s) : MechInitFor(v, s, o, b)
 
 Both == {"aio", "ts"}
 F1 == {"F"}
@@ -33,18 +34,27 @@ Scns(A, B) == { [i \in Items |-> IF i = 1 THEN p[1] ELSE p[2][i]] : p \in A \X [
 One(K, D, W, C) == Scns(ItemScn(K, D, W, C), {Absent})
 AllOne == One(Both, {0, 1, 2}, {0, 1, 2}, TsCombos)
 
+\* a thread-safe item queued behind a loop that is kept BUSY by its first callback for LongBusy ticks while the
+\* foreign thread disposes it (immediate / relative, scheduled before the loop starts / while it is busy)
+LongBusy == 30
+FamBusy(v) == One({"ts"}, {0, 1}, {0}, {<<"F", "F">>, <<"pre", "F">>})
+NoBusy(v, s)     == {0}
+BusyExport(v, s) == IF s \in FamBusy(v) THEN {0, LongBusy} ELSE {0}
+BusyC(v, s)      == IF v = "impatient" THEN {LongBusy} ELSE IF v = "own" THEN BusyExport(v, s) ELSE {0}
+
 (* ---- families of the negative controls (small, each contains a refuting scenario) --------- *)
 ControlFam(v) == CASE v = "caller" -> One({"ts"}, {0, 1}, {0}, CForeign)
-                   [] v = "early"  -> One(Both, {2}, {0}, CNone)
+                   [] v = "early"  -> One(Both, {1}, {0}, CNone)
                    [] v = "lose"   -> One({"ts"}, {1}, {0}, CNone)
                    [] v = "nowake" -> One({"ts"}, {0, 1}, {0}, {<<"F", "none">>})
                    [] v = "inline" -> One({"ts"}, {0}, {0}, CNone)
+                   [] v = "impatient" -> FamBusy(v)
 
 (* ---- design families ------------------------------------------------------------------------ *)
 \* thorough, run 1: every one-item scenario, plus the controls
 FamOne(v) == IF v = "own" THEN AllOne ELSE ControlFam(v)
 \* quick, run 1: the one-item scenarios with delays 0, 1 and waits 0, 1 (dispose before / at the due time), plus the controls
-QuickOne == One(Both, {0, 1}, {0, 1}, TsCombos)
+QuickOne == One(Both, {0, 1}, {0, 1}, TsCombos)          \* (contains FamBusy: the design runs use BusyExport)
 FamOneQuick(v) == IF v = "own" THEN QuickOne ELSE ControlFam(v)
 \* quick, run 2: a relative and an immediate item on the thread-safe scheduler, both disposed by the foreign thread
 FamTwoQuick(v) == Scns(ItemScn({"ts"}, {1}, {0}, CForeign), ItemScn({"ts"}, {0}, {0}, {<<"F", "F">>}))
@@ -86,14 +96,16 @@ D_NoMissedWakeup == Own => NoMissedWakeup
 D_CallerInsideAnotherLoop == (variant = "caller" /\ own # {}) => NoStartAfterDisposeReturned
 
 (* ---- negative controls ---------------------------------------------------------------------------- *)
-Reg(v) == CASE v = "caller" -> 11 [] v = "early" -> 12 [] v = "lose" -> 13 [] v = "inline" -> 14 [] v = "nowake" -> 15 [] OTHER -> 16
+Reg(v) == CASE v = "caller" -> 11 [] v = "early" -> 12 [] v = "lose" -> 13 [] v = "inline" -> 14 [] v = "nowake" -> 15
+            [] v = "impatient" -> 16 [] OTHER -> 17
 Broken(v) == CASE v = "caller" -> ~NoStartAfterDisposeReturned
                [] v = "early"  -> ~NotEarly
                [] v = "lose"   -> ~NoLostAction
                [] v = "nowake" -> ~NoLostAction
+               [] v = "impatient" -> ~NoStartAfterDisposeReturned
                [] v = "inline" -> ~OnLoopThread
                [] OTHER        -> FALSE
-ASSUME \A r \in 11..16 : TLCSet(r, FALSE)
+ASSUME \A r \in 11..17 : TLCSet(r, FALSE)
 \* CONSTRAINT: a fault variant is followed until its invariant breaks
 ControlPrune == Own \/ (IF Broken(variant) THEN TLCSet(Reg(variant), TRUE) /\ FALSE ELSE TRUE)
 \* POSTCONDITION
